@@ -215,3 +215,50 @@ Definition opts_ok_argparse (o : sync_opts) : bool :=
    docstring constant itself (_parse_return) *)
 Definition is_tuple_return (s : stmt) : bool :=
   match s with SReturn (Some (ETuple _)) => true | _ => false end.
+
+(* ================= function targets (follow-up) ================= *)
+From DT Require C06Spec.
+
+(* set_value leaves the docstring text of emit.function alone (it strips one pair of outer quote marks from a text that
+   starts and ends with the same quote mark; to_docstring's text starts with a line break) *)
+Definition fn_text_unquoted (w : nat) (pt : EmitAst.ptable) (ft : str) (i : ir) : bool :=
+  match C03DocLinkDefs.function_docstring_text w (sync_fopts pt ft) i with
+  | Ok t => str_eqb (EmitAst.set_value_str t) t
+  | Err _ => false
+  end.
+
+(* the round trip emit.function -> ast.unparse -> ast.parse -> parse.function of C03 / C03Ext / C19_function_any_name at the
+   options conformance leaves at their defaults (sync_fopts), for the function name [name] and the function type [ft] *)
+Definition guard_C09_function_core (w : nat) (pt : EmitAst.ptable) (i : ir) (name ft : str) : bool :=
+  C06Spec.is_identifier name
+  && C03Spec.guard_C03 (sync_fopts pt ft) i
+  && C03DocLinkDefs.doc_link_ok w (sync_fopts pt ft) i
+  && fn_text_unquoted w pt ft i.
+
+(* the emitted FunctionDef is a fixed point of ast.parse(ast.unparse(.)) (C03Spec.reparse_stmt): no negative number among
+   the defaults (CPython reads -5 back as UnaryOp(USub, 5)) *)
+Definition fn_reparse_fixed (w : nat) (pt : EmitAst.ptable) (i : ir) (name ft : str) : bool :=
+  match emit_function_inst w pt i name (Some ft) with
+  | Ok n => match C03Spec.reparse_stmt n with
+            | Ok n' => stmt_eqb n n'
+            | Err _ => false
+            end
+  | Err _ => false
+  end.
+
+Definition guard_C09_function (w : nat) (pt : EmitAst.ptable) (i : ir) (name ft : str) : bool :=
+  guard_C09_function_core w pt i name ft && fn_reparse_fixed w pt i name ft.
+
+(* get_function_type(found node) is one of these *)
+Definition function_kinds : list str := [L "static"; L "self"; L "cls"].
+
+(* the guard for a function target named [name], whatever FunctionDef is found at its location *)
+Definition guard_C09_function_found (w : nat) (pt : EmitAst.ptable) (i : ir) (name : str) : bool :=
+  forallb (guard_C09_function w pt i name) function_kinds.
+
+Definition guard_C09_function_found_core (w : nat) (pt : EmitAst.ptable) (i : ir) (name : str) : bool :=
+  forallb (guard_C09_function_core w pt i name) function_kinds.
+
+(* the relation C03 proves for functions: names and order by lookup, strict defaults, and the kind comes back *)
+Definition same_interface_function (ft : str) (truth target : ir) : bool :=
+  C03Spec.same_interface_fn ft truth target.
